@@ -357,6 +357,7 @@ debug = false
     open(os.path.join(GEN, "src", "main.rs"), "w").write(program(types, items, comps))
     p = C.sh(["cargo", "run", "--offline", "-q"], cwd=GEN, env={"CARGO_NET_OFFLINE": "true"}, timeout=1500)
     res = {"suite": "derive", "kind": "translation_validation", "params": params, "cache_hit": False}
+    res["rule"] = "type definitions drawn from the grammar (seeded), each instantiated with several values; one generated program derives all of them; every printed line is validated by TLC against Shapes.tla; distinct_nontrivial = distinct type definitions + component derives"
     events = []
     if p.returncode != 0:
         # a supported shape that does not compile / run is a finding about the macros (every shape is in the documented grammar)
